@@ -164,7 +164,8 @@ def sample_point(e, rng, cfg):
 
 def boundary_points(e, rng, cfg):
     """(label, point, expectation): 'smooth' = a valid input that is not a documented non-smooth point (gradient must be
-    finite and match finite differences), 'nonsmooth' = documented (only recorded: no exception, value finite or NaN by design)"""
+    finite and match finite differences), 'finite' = gradient must be finite (the value itself jumps: no finite differences),
+    'nonsmooth' = documented (only recorded: no exception, value finite or NaN by design)"""
     out = []
     if e.group == 'colour':
         C = lambda r, g, b: {'x': np.array([[[r, r]], [[g, g]], [[b, b]]], dtype=np.float64) * np.ones(R.CSHAPE)}
@@ -188,7 +189,7 @@ def boundary_points(e, rng, cfg):
         out.append(('zero field', {'fr': np.zeros((2, 2)), 'fi': np.zeros((2, 2))}, 'nonsmooth'))
         out.append(('real axis', {'fr': np.array([[1., -2.], [0.5, -0.25]]), 'fi': np.zeros((2, 2))}, 'smooth'))
     if e.name == 'calculate_phase':
-        out.append(('negative real axis', {'fr': -np.array([[1., 2.], [0.5, 0.25]]), 'fi': np.zeros((2, 2))}, 'smooth'))
+        out.append(('negative real axis', {'fr': -np.array([[1., 2.], [0.5, 0.25]]), 'fi': np.zeros((2, 2))}, 'finite'))
         out.append(('imaginary axis', {'fr': np.zeros((2, 2)), 'fi': np.array([[1., -2.], [0.5, -0.25]])}, 'smooth'))
         out.append(('zero field', {'fr': np.zeros((2, 2)), 'fi': np.zeros((2, 2))}, 'nonsmooth'))
     if e.name == 'generate_complex_field':
@@ -244,19 +245,26 @@ def round_point(e, point):
 
 
 def central_difference(e, point):
-    h = 1e-6 if e.dtype == 'f64' else 2e-3
+    """(central finite-difference gradient, absolute noise level of it)"""
+    rel = 1e-6 if e.dtype == 'f64' else 1e-3
+    eps = 2.3e-16 if e.dtype == 'f64' else 1.2e-7
     base = e.env_of(point)
     g = np.zeros(e.nvars)
+    fmax, hmin = 0.0, 1.0
     for i in range(e.nvars):
+        h = rel * max(abs(base[i]), 0.05)
         vals = []
         for sgn in (1, -1):
-            v = list(base); v[i] += sgn * h * max(1.0, abs(v[i]))
+            v = list(base); v[i] += sgn * h
             p2, off = {}, 0
             for pn, shp in e.params:
                 sz = int(np.prod(shp)); p2[pn] = np.array(v[off:off + sz]).reshape(shp); off += sz
-            vals.append(real_objective(e, p2, need_grad=False)[0])
-        g[i] = (vals[0] - vals[1]) / (2 * h * max(1.0, abs(base[i])))
-    return g
+            p2 = round_point(e, p2)
+            vals.append((real_objective(e, p2, need_grad=False)[0], e.env_of(p2)[i]))
+        hh = vals[0][1] - vals[1][1]
+        g[i] = (vals[0][0] - vals[1][0]) / hh if hh != 0 else float('nan')
+        fmax = max(fmax, abs(vals[0][0]), abs(vals[1][0])); hmin = min(hmin, abs(hh) if hh else h)
+    return g, 30 * eps * (fmax + 1.0) / hmin
 
 
 def jsonable(point):
@@ -297,11 +305,12 @@ def oracle_grad(inp, entry=None):
             err = rel_err(g, pv)
             res.append(('gradient_equals_proven_derivative', err <= TOL[e.dtype], '<= %g (relative, max norm)' % TOL[e.dtype], {'rel_err': err, 'autograd': g.tolist(), 'proven': pv.tolist()}))
     if inp.get('fd', True) and fin:
-        fd = central_difference(e, point)
+        fd, noise = central_difference(e, point)
         if np.all(np.isfinite(fd)):
-            err = rel_err(g, fd)
             tol = FD_TOL[e.dtype] * inp.get('fd_slack', 1.0)
-            res.append(('gradient_equals_central_difference', err <= tol, '<= %g' % tol, {'rel_err': err, 'autograd': g.tolist(), 'central_difference': fd.tolist()}))
+            err = float(np.abs(g - fd).max()); allowed = tol * max(float(np.abs(g).max()), float(np.abs(fd).max())) + noise
+            res.append(('gradient_equals_central_difference', err <= allowed, '<= %.3g (rel %g + float noise %.2g)' % (allowed, tol, noise),
+                        {'max_abs_err': err, 'autograd': g.tolist(), 'central_difference': fd.tolist()}))
     return res
 
 
@@ -450,7 +459,9 @@ def oracle_propagator(inp):
 
 
 def oracle_structure(inp):
-    """no .detach()/.item()/.numpy()/.tolist()/torch.tensor(<tensor>) between a differentiable parameter and the return"""
+    """no `torch.tensor(<expression of a differentiable tensor parameter>)` (a fresh leaf: always cuts the graph).  The other
+    candidates (.detach/.item/.numpy/.tolist) are only listed in the evidence: whether they sit on a gradient path is decided
+    dynamically by the clauses gradient_path_exists / *_equals_proven_derivative."""
     hits = tainted_breakers(only=inp.get('function'))
     key = inp.get('function')
     bad = hits.get(key, []) if key else [h for v in hits.values() for h in v]
@@ -495,8 +506,6 @@ def tainted_breakers(only=None):
             for c in ast.walk(fn):
                 if not isinstance(c, ast.Call): continue
                 f = c.func
-                if isinstance(f, ast.Attribute) and f.attr in ('detach', 'item', 'numpy', 'tolist') and names_of(f.value) & taint:
-                    hits.append([c.lineno, '.%s()' % f.attr, ast.get_source_segment(src, c)[:100]])
                 if isinstance(f, ast.Attribute) and f.attr == 'tensor' and isinstance(f.value, ast.Name) and f.value.id == 'torch' and c.args and names_of(c.args[0]) & taint:
                     hits.append([c.lineno, 'torch.tensor(<%s>)' % ','.join(sorted(names_of(c.args[0]) & taint)), ' '.join(ast.get_source_segment(src, c).split())[:100]])
             if hits: res[key] = sorted(hits)
@@ -670,7 +679,7 @@ def run(ctx):
     # ---------------- B1: trace, Coq report
     ents, errs = build_entries(T, cfg)
     ctx.programs = len(ents)
-    ctx.obligation('translator:trace(%d entry points, %d instructions)' % (len(ents), sum(len(e.program()) for e in ents) if not errs else 0), not errs and len(ents) >= 40, str(errs))
+    ctx.obligation('translator:trace(%d entry points, %d instructions)' % (len(ents), sum(len(e.program()) for e in ents) if not errs else 0), not errs and len(ents) >= 30, str(errs))
     progs = coq_reports(ctx, ents)
     colour_tie(ctx, ents)
     ctx.extra['side_conditions'] = {e.name: sorted({c[0] for cs in progs[e.name].conds for c in cs}) for e in ents if e.name in progs}
@@ -727,6 +736,7 @@ def run(ctx):
                 except Exception as ex:
                     ctx.violation(fn_of('grad', inp), 'no_exception', dict(inp, oracle='grad'), 'a result (possibly NaN by design)', repr(ex))
                 continue
+            if expect == 'finite': inp['fd'] = False     # the value jumps here (branch cut) although the gradient formula is continuous
             if mm[0] > 1e-6 and np.all(np.isfinite(g[0])):
                 inp['proven'] = g[0].tolist()            # inside the autograd-safe domain: the proven derivative applies
             apply_oracle(ctx, 'grad', inp, entry=e)
